@@ -167,7 +167,13 @@ def check_one(comps, free, pset_name, pmask, variant, ctx, do_errors=True):
     ref_sig = np.sqrt(np.diag(np.linalg.inv(fisher)))
     data = np.where(pmask, 1.0, np.nan)
     ctx.count("covar_errors")
+    keepB, keepC, keepD = (None if B is None else B.copy()), (None if C is None else C.copy()), data.copy()
     p2 = fitting.covar_errors(make_params(comps, free), data, errs=errs, B=B, C=C)
+    for nm, was, now in (("B", keepB, B), ("C", keepC, C), ("data", keepD, data)):
+        if was is not None and not np.array_equal(was, now, equal_nan=True):
+            ctx.violation("covar_errors changed its caller's %s array in place (largest change %.4g): a second call with the same array "
+                          "gets other errors (%s)" % (nm, float(np.nanmax(np.abs(np.asarray(now, dtype=float) - was))), sig), "arg_mutated_%s|%s" % (nm, sig))
+            return
     k = 0
     bad = False
     for i in range(len(comps)):
